@@ -167,9 +167,39 @@ STARTUPS = {
     'retried': [{'duration': 1, 'script': ['temp:2', 'ok']}],
     'fail': [{'duration': 1, 'script': ['perm']}],
     'ok+fail': [{'duration': 1, 'script': ['ok']}, {'duration': 2, 'script': ['perm']}],
+    # several handlers, several rounds of run_activity (temp:<delay> = TemporaryError, retried after <delay> seconds)
+    'perm+retry': [{'duration': 1, 'script': ['perm']}, {'duration': 1, 'script': ['temp:2', 'ok']}],
+    'retry+perm': [{'duration': 1, 'script': ['temp:3', 'ok']}, {'duration': 2, 'script': ['perm']}],
+    'lateperm+ok': [{'duration': 1, 'script': ['temp:1', 'temp:2', 'perm']}, {'duration': 1, 'script': ['ok']}],
+    'ok+retryperm': [{'duration': 1, 'script': ['ok']}, {'duration': 1, 'script': ['temp:2', 'perm']}],
+    'three-mixed': [{'duration': 1, 'script': ['perm']}, {'duration': 1, 'script': ['temp:1', 'temp:2', 'ok']},
+                    {'duration': 2, 'script': ['ok']}],
+    'three-midperm': [{'duration': 1, 'script': ['temp:1', 'perm']}, {'duration': 1, 'script': ['temp:1', 'temp:3', 'ok']},
+                      {'duration': 1, 'script': ['ok']}],
+    'all-retried-ok': [{'duration': 1, 'script': ['temp:1', 'ok']}, {'duration': 1, 'script': ['temp:2', 'temp:1', 'ok']}],
 }
 CLEANUPS = {'none': [], 'ok': [{'duration': 1, 'script': ['ok']}], 'fail': [{'duration': 1, 'script': ['perm']}],
-            'two': [{'duration': 1, 'script': ['ok']}, {'duration': 2, 'script': ['ok']}]}
+            'two': [{'duration': 1, 'script': ['ok']}, {'duration': 2, 'script': ['ok']}],
+            'retried': [{'duration': 1, 'script': ['temp:1', 'ok']}, {'duration': 1, 'script': ['ok']}],
+            'perm+retry': [{'duration': 1, 'script': ['perm']}, {'duration': 1, 'script': ['temp:2', 'ok']}],
+            'ok+retryperm': [{'duration': 1, 'script': ['ok']}, {'duration': 1, 'script': ['temp:1', 'perm']}]}
+
+
+def finally_fails(specs: list[dict]) -> bool:
+    """Does some handler of the activity fail for good (its script reaches 'perm' before 'ok')?"""
+    for h in specs:
+        for x in h['script']:
+            if x == 'perm':
+                return True
+            if x == 'ok':
+                break
+    return False
+
+
+def activity_time(specs: list[dict]) -> float:
+    """A generous upper bound of the virtual time an activity with these handlers takes (all rounds, all delays)."""
+    return sum(len(h['script']) * h['duration'] + sum(float(x.split(':')[1]) for x in h['script'] if x.startswith('temp:'))
+               for h in specs)
 EXIT_TIMEOUT = 2
 
 
@@ -488,8 +518,14 @@ def translate(res: Result) -> Translation:
                                f'{sorted(runner_of.get(r, "?") for r in asked_runners)}, running at the sweep {sorted(st["asked"])}')
 
     runner_of: dict[int, str] = {}
-    for e in res.events:
+    hcalls = [{'order': c['order'], 'ev': 'hcall', 'h': int(c['handler'][2:]), 'outcome': c['outcome']}
+              for c in res.calls if c['kind'] == 'startup' and c['handler'].startswith('st')]
+    for e in sorted(res.events + hcalls, key=lambda x: x['order']):
         ev = e['ev']
+        if ev == 'hcall':
+            r = {'ok': 'HOk', 'perm': 'HPerm'}.get(e['outcome'] or '', 'HTemp')
+            emit(f"StartupHandler {e['h']} {r}", e)
+            continue
         if ev == 'new':
             t = e['task']
             i = classify(t, e['by'])
@@ -722,7 +758,7 @@ def exit_bound(sc: dict) -> float:
     """Sum of the configured grace periods that can lie between the trigger and the return."""
     ds = DAEMON_SETS[sc['daemons']]
     per_daemon = max([(d['backoff'] or 0) + (d['timeout'] or 0) for d in ds] + [0])
-    cleanup = sum(c['duration'] for c in CLEANUPS[sc['cleanup']])
+    cleanup = activity_time(CLEANUPS[sc['cleanup']])
     return EXIT_TIMEOUT + 5 + per_daemon + cleanup + 3 + 0.5      # + error_backoffs [1, 2] of the final touch + slack
 
 
@@ -741,7 +777,8 @@ def monitors(ctx: fw.Ctx, res: Result, tr: Translation) -> None:
     st_end = [e for e in res.events if e['ev'] == 'act_end' and e['activity'] == 'startup']
     startup_ok = bool(st_end) and st_end[0]['out'] == 'ok'
     startup_failed = bool(st_end) and st_end[0]['out'] == 'err'
-    expect_startup_fail = sc['startup'] in ('fail', 'ok+fail')
+    expect_startup_fail = finally_fails(STARTUPS[sc['startup']])
+    perm_startup = [c for c in startups if c['outcome'] == 'perm']
 
     if res.error:
         ctx.fail('the scenario did not run to its end', case, observed=res.error, sig='scenario-error')
@@ -767,7 +804,15 @@ def monitors(ctx: fw.Ctx, res: Result, tr: Translation) -> None:
                 ctx.fail('the ready flag was raised before a startup handler had finished', case, observed=c['handler'], sig='ready-before-startup')
     elif startup_ok and not (trig['kind'] in ('stop', 'cancel') and trig.get('at', 0) <= (st_end[0]['t'] if st_end else 0)):
         ctx.fail('startup succeeded but the ready flag was never raised', case, sig='never-ready')
-    if expect_startup_fail and not (trig['kind'] in ('stop', 'cancel') and trig.get('at', 0) < 10):
+    if perm_startup and ready:
+        ctx.fail('the ready flag was raised although a startup handler had failed for good', case,
+                 observed={'handler': perm_startup[0]['handler'], 'failed_at': perm_startup[0]['ended'], 'ready_at': ready[0]['t']},
+                 sig='ready-after-failed-startup')
+    # a stop trigger that comes while the startup activity still runs, or within the 5 s of the hung-tasks phase after its
+    # failure, legitimately changes how kopf.operator() ends
+    t_fail = st_end[0]['t'] if st_end else None
+    early_trigger = trig['kind'] in ('stop', 'cancel') and (t_fail is None or trig.get('at', 0) <= t_fail + 6)
+    if (expect_startup_fail or perm_startup) and not early_trigger:
         exc = res.inc.exception if res.inc else None
         if not res.exited or res.forced or type(exc).__name__ != 'ActivityError':
             ctx.fail('a failed startup did not abort the operator with the failure', case,
@@ -887,9 +932,9 @@ def monitors(ctx: fw.Ctx, res: Result, tr: Translation) -> None:
     # what kopf.operator() raised
     exc = res.inc.exception if res.inc else None
     if res.injected is None and not expect_startup_fail:
-        if trig['kind'] == 'stop' and not cancelled_path and sc['cleanup'] != 'fail' and exc is not None:
+        if trig['kind'] == 'stop' and not cancelled_path and not finally_fails(CLEANUPS[sc['cleanup']]) and exc is not None:
             ctx.fail('a graceful stop ended with an exception', case, observed=repr(exc), sig='stop-raises')
-        if trig['kind'] == 'stop' and not cancelled_path and sc['cleanup'] == 'fail' and startup_ok and ready \
+        if trig['kind'] == 'stop' and not cancelled_path and any(c['outcome'] == 'perm' for c in cleanups) and startup_ok and ready \
                 and type(exc).__name__ != 'ActivityError':
             ctx.fail('a failed cleanup was not re-raised', case, observed=repr(exc), sig='cleanup-failure-not-raised')
         if trig['kind'] == 'cancel' and not isinstance(exc, asyncio.CancelledError):
@@ -1059,6 +1104,22 @@ def grid(ctx: fw.Ctx) -> list[dict]:
             if ds != 'ignores':    # (a daemon that swallows the only cancellation it ever gets blocks the exit: by design)
                 add(daemons=ds, objects=0, trigger={'kind': kind, 'at': 10, 'create_at_trigger': True})
                 add(daemons=ds, objects=1, handler_duration=2, trigger={'kind': kind, 'at': 10, 'create_at_trigger': True, 'settled': True})
+    # 2b. several startup / cleanup handlers over several rounds of run_activity (retries with distinct delays)
+    multi = ['perm+retry', 'retry+perm', 'lateperm+ok', 'ok+retryperm', 'three-mixed', 'three-midperm', 'all-retried-ok']
+    for startup in multi:
+        for ds in ('none', 'obeys'):
+            add(startup=startup, daemons=ds, trigger={'kind': 'stop', 'at': 25})
+            add(startup=startup, daemons=ds, trigger={'kind': 'cancel', 'at': 25})
+            add(startup=startup, daemons=ds, trigger={'kind': 'root500'})
+        add(startup=startup, trigger={'kind': 'stop', 'at': 2})        # in the middle of the rounds
+        add(startup=startup, trigger={'kind': 'cancel', 'at': 3.5})
+        add(startup=startup, peering=True, trigger={'kind': 'stop', 'at': 25})
+    for cleanup in ('retried', 'perm+retry', 'ok+retryperm'):
+        for kind in ('stop', 'cancel'):
+            for ds in ('none', 'obeys'):
+                add(cleanup=cleanup, daemons=ds, trigger={'kind': kind, 'at': 10})
+        add(cleanup=cleanup, startup='all-retried-ok', trigger={'kind': 'stop', 'at': 25})
+        add(cleanup=cleanup, scanning=True, trigger={'kind': 'crd_error', 'at': 10})
     # 3. peering
     for kind in ('stop', 'cancel'):
         for ds in ('none', 'obeys'):
@@ -1095,10 +1156,10 @@ def grid(ctx: fw.Ctx) -> list[dict]:
             if kind in ('stream_error', 'worker_raise'):
                 sc['trigger']['then'] = r.choice(['stop', 'cancel'])
                 sc['trigger']['at'] = max(sc['trigger']['at'], 9.0)
-                sc['startup'] = r.choice(['none', 'ok', 'two'])
+                sc['startup'] = r.choice(['none', 'ok', 'two', 'all-retried-ok'])
             if kind == 'crd_error':
                 sc['trigger']['at'] = max(sc['trigger']['at'], 9.0)
-                sc['startup'] = r.choice(['none', 'ok', 'two'])
+                sc['startup'] = r.choice(['none', 'ok', 'two', 'all-retried-ok'])
             if kind in ('stop', 'cancel') and r.random() < 0.3 and sc['trigger']['at'] >= 1:
                 sc['trigger']['inflight'] = True
             scs.append(sc)
@@ -1130,7 +1191,10 @@ def check_scenario(ctx: fw.Ctx, sc: dict, cases: list[fw.Case], label: str = '')
     ctx.count('trigger', sc['trigger']['kind'])
     ctx.count('startup', sc['startup'])
     ctx.count('daemons', sc['daemons'])
-    ctx.count('returned', str(tr.result))
+    nfailed = len([e for e in res.events if e['ev'] == 'done' and e['out'] == 'err' and e['task'] is not res.main
+                   and (tr.tasks.get(id(e['task'])) or {}).get('kind') == 'root'])
+    # aiotasks.reraise iterates a SET of tasks: with two failed roots, which error is raised depends on object addresses
+    ctx.count('returned', str(tr.result) if nfailed <= 1 else 'RErr (one of several failed root tasks: set iteration order)')
     got_past = any(e['ev'] == 'ready' for e in res.events)
     busy = got_past and (DAEMON_SETS[sc['daemons']] or sc['trigger'].get('inflight') or sc.get('peering'))
     if busy or res.injected:
